@@ -79,7 +79,7 @@ impl<'a> AnalyzeContext<'a, '_> {
         diagnostics: &mut dyn DiagnosticHandler,
     ) -> EvalResult<BaseType<'a>> {
         let resolved =
-            self.name_resolve(scope, attr.name.span, &mut attr.name.item, diagnostics)?;
+            self.name_resolve_attr_prefix(scope, attr.name.span, &mut attr.name.item, diagnostics)?;
         let typ = match resolved {
             ResolvedName::Type(typ) => typ,
             ResolvedName::ObjectName(oname) => oname.type_mark(),
@@ -323,7 +323,7 @@ impl<'a> AnalyzeContext<'a, '_> {
                 } = name.as_mut();
 
                 let prefix_typ = as_fatal(
-                    self.name_resolve(scope, name.span, &mut name.item, diagnostics)
+                    self.name_resolve_attr_prefix(scope, name.span, &mut name.item, diagnostics)
                         .and_then(|prefix| {
                             prefix.as_type_of_attr_prefix(
                                 self.ctx,
